@@ -181,14 +181,24 @@ async def transfer(net, hyg, plan):
         async with c2.download_stream("/d/f.bin", offset=off2) as s:
             i = 0
             rs = plan["reads"]
+            to_eof_incomplete = None
             while True:
-                d = await s.read(rs[i % len(rs)])
+                n_req = rs[i % len(rs)]
+                d = await s.read(n_req)
                 i += 1
                 if not d:
                     break
+                if n_req == -1 and to_eof_incomplete is None:
+                    to_eof_incomplete = False
+                elif to_eof_incomplete is False:
+                    to_eof_incomplete = True    # read(-1) ("until end of file") had returned, yet more data followed
                 buf += d
         mon["download_model" if op == "RETR" else "second_session"] += 1
         exp = want[off2:]
+        if to_eof_incomplete and rs == [-1]:
+            viol.append({"key": "read-to-eof-returned-a-prefix",
+                         "msg": f"{where}: stream.read() without a count (read until end of file) returned before the end; the rest "
+                                f"came with later calls"})
         if bytes(buf) != exp:
             viol.append({"key": f"downloaded-bytes-differ:{'rest' if off2 else 'whole'}",
                          "msg": f"{where}: downloaded {describe(bytes(buf))} expected {describe(exp)} {first_diff(bytes(buf), exp)}"})
@@ -211,7 +221,7 @@ async def transfer(net, hyg, plan):
                 got = bytearray()
                 async with cj.download_stream("/d/f.bin") as sj:
                     while True:
-                        dj = await sj.read(plan["reads"][0] if plan["reads"][0] > 1 else 100)
+                        dj = await sj.read(plan["reads"][0] if plan["reads"][0] > 1 else 100)   # (-1 -> 100: interleaving needs blocks)
                         if not dj:
                             break
                         got += dj
@@ -305,15 +315,15 @@ def gen_cases(tier, seed):
                 "block_size": bs, "kind": rng.choice(CONTENT), "old_kind": rng.choice(CONTENT), "backend": backend,
                 "passive": rng.choice(["epsv", "pasv"]), "passive2": rng.choice(["epsv", "pasv"]),
                 "mss": mss, "lat": [rng.choice([0.0002, 0.001, 0.004]) for _ in range(3)],
-                "reads": [rng.choice([1, 7, 100, 512, 8192, 65536]) for _ in range(rng.randint(1, 3))], "throttle": thr,
+                "reads": [rng.choice([1, 7, 100, 512, 8192, 65536, -1, -1]) for _ in range(rng.randint(1, 3))], "throttle": thr,
                 "backend_delay": rng.choice([0, 0, 0.0007, 0.003]) if bs >= 512 else 0}
         if op == "RETR" and bs >= 7 and rng.random() < 0.3:
             plan["short_reads"] = rng.choice([1, bs // 2, bs - 1, max(1, bs // 8)])
         if rng.random() < 0.25 and bs >= 7:
             plan["concurrent_readers"] = rng.choice([2, 2, 3])
         plan["chunks"] = chunks(plan["size"], rng)
-        if len(plan["reads"]) and min(plan["reads"]) == 1 and olds + plan["size"] > 5000:
-            plan["reads"] = [r if r > 1 else 100 for r in plan["reads"]]
+        if len(plan["reads"]) and 1 in plan["reads"] and olds + plan["size"] > 5000:
+            plan["reads"] = [r if r != 1 else 100 for r in plan["reads"]]
         plans.append(plan)
     # full-factorial core at one block size: op x old size x payload size x offset class
     bs = 512 if seed % 2 == 0 else 64
@@ -339,5 +349,18 @@ def gen_cases(tier, seed):
                             "backend_delay": [0, 0.002][j % 2]}
                     plan["chunks"] = chunks(size, rng)
                     plans.append(plan)
+    # client-side limits with the less common call shapes: read() to end of file in one call, one big write()
+    j = 0
+    for thr in ({"c_read_speed_limit": 1000}, {"c_read_speed_limit": 5000, "s_write_speed_limit": 20000}, {"c_write_speed_limit": 2000},
+                {"c_read_speed_limit": 3000, "c_write_speed_limit": 3000}):
+        for op in ("RETR", "STOR", "APPE"):
+            for size in (3000, 20000):
+                j += 1
+                plan = {"seed": seed * 17 + j, "op": op, "size": size if op != "RETR" else 0, "old_size": size if op == "RETR" else 10,
+                        "offset": [0, 7][j % 2] if op == "RETR" else 0, "block_size": 8192, "kind": CONTENT[j % len(CONTENT)],
+                        "old_kind": CONTENT[(j + 1) % len(CONTENT)], "backend": "memory", "passive": "epsv", "passive2": "pasv",
+                        "mss": [1460, 1460, 536], "lat": [0.0005], "reads": [-1], "throttle": thr, "backend_delay": 0}
+                plan["chunks"] = [size] if op != "RETR" else []
+                plans.append(plan)
     per = 10
     return [{"plans": plans[i:i + per]} for i in range(0, len(plans), per)]
